@@ -33,6 +33,8 @@ func genCase(t *rapid.T) Case {
 	ho := gen.HistoryOpts{MaxSteps: 8, MaxBatch: 10, PoolSize: rapid.SampledFrom([]int{10, 30}).Draw(t, "pool"),
 		AllowRejected: rapid.IntRange(0, 3).Draw(t, "allowRejected") == 0, Evict: true, ExtraFields: true,
 		FieldProb: rapid.SampledFrom([]int{50, 85, 100}).Draw(t, "fieldProb")}
+	// the same id more than once in one update batch (merged in order; the indices must see the net change)
+	ho.AllowDupUpdate = rapid.IntRange(0, 3).Draw(t, "dupUpdate") == 0
 	nq := 5
 	if vt.Thorough() {
 		ho.MaxSteps, ho.MaxBatch, nq = 14, 25, 8
